@@ -152,7 +152,7 @@ CLASSY = [
     "typing.MutableMapping", "typing.AbstractSet", "typing.MutableSet", "typing.List", "typing.Dict", "typing.Set", "typing.FrozenSet",
     "typing.Tuple", "typing.Deque", "typing.DefaultDict", "typing.OrderedDict", "typing.Counter", "typing.ChainMap", "typing.Hashable",
     "list[int]", "typing.List[int]", "set[str]", "typing.Set[str]", "frozenset[int]", "typing.FrozenSet[int]", "dict[str, int]",
-    "typing.Dict[str, int]", "tuple[int, ...]", "typing.Tuple[int, ...]", "tuple[int, str]", "typing.Tuple[int, str]", "tuple[()]",
+    "typing.Dict[str, int]", "tuple[int, ...]", "typing.Tuple[int, ...]", "tuple[int, str]", "typing.Tuple[int, str]", "tuple[()]", "typing.Tuple[()]",
     "collections.deque[int]", "typing.Deque[int]", "collections.abc.Sequence[int]", "typing.Sequence[int]", "collections.abc.Mapping[str, int]",
     "typing.Mapping[str, int]", "collections.abc.Iterable[int]", "typing.Iterable[int]", "collections.abc.Iterator[int]", "typing.Iterator[int]",
     "collections.abc.Set[int]", "typing.AbstractSet[int]", "collections.abc.MutableSet[int]", "typing.MutableSet[int]",
@@ -283,6 +283,8 @@ EXACT_MODEL = {
     "isclassvartype": lambda o: (typing.get_origin(o) or o) is typing.ClassVar,
     "isfinal": lambda o: (typing.get_origin(o) or o) is typing.Final,
     # for a class (not a typing form) the runtime's own answer
+    # an alias that is a class subscripted with parameters - zero parameters included (tuple[()]) - is subscripted
+    "issubscriptedgeneric": lambda o: _subscripted_class_alias(o),
     "qualname": lambda o: _class_names(o)[0],
     "name": lambda o: _class_names(o)[1],
 }
@@ -306,6 +308,13 @@ def _model_unwrap(o):
     if typing.get_origin(o) in (typing.Union, types.UnionType, typing.Annotated, typing.Literal) or not (inspect.isclass(o) or typing.get_args(o)):
         return _MISSING
     return o
+
+
+def _subscripted_class_alias(o):
+    og = typing.get_origin(o)
+    if isinstance(og, type) and hasattr(o, "__args__") and not isinstance(o, type) and og.__module__ in ("builtins", "collections", "collections.abc"):
+        return True
+    raise TypeError("no model")
 
 
 def _class_names(o):
